@@ -113,15 +113,8 @@ Proof.
   rewrite N.div_div by lia. change (256 * 256) with 65536. rewrite N.div_small by exact H. reflexivity.
 Qed.
 
-Lemma plen_string_enc n rest : n < 65536 -> plen_string (enc_packed n ++ rest) = Ok (n, rest).
-Proof.
-  intros H. unfold enc_packed, plen_string. destruct (n <? 255) eqn:E.
-  - apply N.ltb_lt in E. cbn [app]. rewrite get_u1_cons. cbn [bind]. rewrite b2n_n2b by lia.
-    replace (n =? 255) with false by (symmetry; apply N.eqb_neq; lia). reflexivity.
-  - rewrite <- app_comm_cons, get_u1_cons. cbn [bind]. change (b2n xff =? 255) with true. cbv iota.
-    rewrite le_encode_3_small by exact H. rewrite <- app_assoc.
-    rewrite (get_u_app 2) by (change (256 ^ N.of_nat 2) with 65536; exact H). cbn [bind app]. reflexivity.
-Qed.
+Lemma plen_string_enc n rest : n < 2 ^ 24 -> plen_string (enc_packed n ++ rest) = Ok (n, rest).
+Proof. exact (plen_blob_enc n rest). Qed.
 
 Lemma plen_py_enc n rest : n < 255 -> plen_py (enc_packed n ++ rest) = Ok (n, rest).
 Proof.
@@ -293,12 +286,7 @@ Proof.
   - inversion H; subst. eapply get_u_suffix; eauto.
 Qed.
 Lemma plen_string_suffix bs n r : plen_string bs = Ok (n, r) -> suffix r bs.
-Proof.
-  unfold plen_string. intros H. bind_inv H. destruct (_ =? 255).
-  - bind_inv H. bind_inv H. inversion H; subst.
-    eapply suffix_trans; [eapply need_suffix; eauto|]. eapply suffix_trans; eapply get_u_suffix; eauto.
-  - inversion H; subst. eapply get_u_suffix; eauto.
-Qed.
+Proof. exact (plen_blob_suffix bs n r). Qed.
 
 Theorem decode_consumes_prefix : forall t hdr bs v rest,
   decode hdr t bs = Ok (v, rest) -> suffix rest bs.
@@ -377,15 +365,7 @@ Proof.
     generalize 255%nat. intros n. induction n; cbn; [exact I|]. split; [lia|assumption]. }
   specialize (H Ht). vm_compute in H. discriminate H.
 Qed.
-Example decode_wire_encode_refuted_string :
-  exists v rest, ~ full_statement TString v rest.
-Proof.
-  exists (VStr (repeat x41 (N.to_nat 65536))), [x42]. unfold full_statement. intros H.
-  assert (Ht : has_type spec_limits TString (VStr (repeat x41 (N.to_nat 65536)))) by (vm_compute; split; reflexivity).
-  specialize (H Ht).
-  assert (E : forall r, decode 1 TString (wire_encode 1 TString (VStr (repeat x41 (N.to_nat 65536))) ++ [x42]) = r ->
-              match r with Ok (VStr b, _) => length b = 0%nat | _ => False end).
-  { intros r <-. vm_compute. reflexivity. }
-  specialize (E _ H). cbn in E. rewrite repeat_length in E. vm_compute in E. discriminate E.
-Qed.
-Print Assumptions decode_wire_encode_refuted_string.
+(* STRING of 65536 bytes and more: decodes exactly (the reader takes the 3-byte packed length since the repair fixed: C03-a) *)
+Example decode_long_string :
+  decode 1 TString (wire_encode 1 TString (VStr (repeat x41 (N.to_nat 65537))) ++ [x42]) = Ok (VStr (repeat x41 (N.to_nat 65537)), [x42]).
+Proof. apply decode_wire_encode_partial. vm_compute. split; reflexivity. Qed.
